@@ -41,7 +41,7 @@ def correspondence(ctx):
     vlib.differential(ctx, "e2e-receiver-step-commuting", "TestVerifE2ERecv", "e2e",
                       {"VERIF_N": ctx.scale(150, 4000), "VERIF_OPS": 160})
     vlib.differential(ctx, "e2e-receiver-sim-step-commuting", "TestVerifSimRecv", "e2e",
-                      {"VERIF_N": ctx.scale(30, 800), "VERIF_EVENTS": 250})
+                      {"VERIF_N": ctx.scale(60, 1500), "VERIF_EVENTS": 250})
     vlib.differential(ctx, "rq-differential", "TestVerifRQ", "rq",
                       {"VERIF_N": ctx.scale(200, 4000), "VERIF_OPS": 100,
                        "VERIF_CORPUS": os.path.join(vlib.VERIF, "corpus/rq.ops")})
